@@ -791,6 +791,42 @@ impl<T: Transport + 'static> SyncEngine<T> {
             monitor.lock().unwrap().start_transfer();
         }
 
+        // Entries below a stale directory that the destination scan does not list (hidden by an
+        // ignore rule, a `.git` directory) go away with the directory: they are reported and counted
+        // with it. (They used to vanish without an event.)
+        let unlisted_below: Arc<std::collections::HashMap<PathBuf, Vec<PathBuf>>> = {
+            let planned: std::collections::HashSet<&Path> = tasks
+                .iter()
+                .filter(|t| matches!(t.action, SyncAction::Delete))
+                .map(|t| t.dest_path.as_path())
+                .collect();
+            let mut below = std::collections::HashMap::new();
+            for dir in planned.iter().filter(|p| {
+                std::fs::symlink_metadata(p).is_ok_and(|m| m.is_dir())
+            }) {
+                let mut found = Vec::new();
+                let mut stack = vec![dir.to_path_buf()];
+                while let Some(current) = stack.pop() {
+                    for entry in std::fs::read_dir(&current).into_iter().flatten().flatten() {
+                        let path = entry.path();
+                        // a planned entry (and everything below it) is reported by its own task
+                        if planned.contains(path.as_path()) {
+                            continue;
+                        }
+                        if entry.file_type().is_ok_and(|t| t.is_dir()) {
+                            stack.push(path.clone());
+                        }
+                        found.push(path);
+                    }
+                }
+                if !found.is_empty() {
+                    found.sort();
+                    below.insert(dir.to_path_buf(), found);
+                }
+            }
+            Arc::new(below)
+        };
+
         // With -H: the destination names of every multiply-linked source file (see
         // `relink_hard_link_groups`)
         let mut link_groups: std::collections::HashMap<u64, Vec<PathBuf>> =
@@ -833,6 +869,7 @@ impl<T: Transport + 'static> SyncEngine<T> {
             let preserve_acls = self.preserve_acls;
             let preserve_flags = self.preserve_flags;
             let hardlink_map = Arc::clone(&hardlink_map);
+            let unlisted_below = Arc::clone(&unlisted_below);
             let perf_monitor = self.perf_monitor.clone();
 
             let handle = tokio::spawn(async move {
@@ -1268,9 +1305,13 @@ impl<T: Transport + 'static> SyncEngine<T> {
 
                         match delete_result {
                             Ok(_) => {
+                                let unlisted = unlisted_below
+                                    .get(&task.dest_path)
+                                    .map(Vec::as_slice)
+                                    .unwrap_or(&[]);
                                 {
                                     let mut stats = stats.lock().unwrap();
-                                    stats.files_deleted += 1;
+                                    stats.files_deleted += 1 + unlisted.len();
                                 }
 
                                 // Track in performance monitor
@@ -1280,6 +1321,9 @@ impl<T: Transport + 'static> SyncEngine<T> {
 
                                 // Emit JSON event if enabled
                                 if json {
+                                    for path in unlisted {
+                                        SyncEvent::Delete { path: path.clone() }.emit();
+                                    }
                                     SyncEvent::Delete {
                                         path: task.dest_path.clone(),
                                     }
